@@ -14,7 +14,8 @@ RULE = ("Histories (1-40 ops) of add(id, priority)/remove(id)/step(n) (one case 
         "integer priorities (Python ints of any size and numpy integer scalars incl. unsigned ones) (incl. collectors with their default priority and system objects that are falsy), interpreted against the real scheduler and "
         "a sorted-list model (key = -priority, registration sequence); plus the exhaustive box. Non-trivial: at some "
         "executed timestep >= 3 systems with >= 2 priority levels and >= 1 tie are registered, or an id is removed and "
-        "re-registered. Distinct = digest of the operation list.")
+        "re-registered. Distinct = digest of the operation list."
+        " Added in rounds 19-24: a quarter of the plain histories use identifiers that are str objects of a subclass.")
 EXHAUSTIVE_DOMAIN = ("every registration sequence of 1..5 systems over priorities {-1,0,2} (quick: 1..4), each also with "
                      "every single remove-and-re-add (index x new priority), one timestep after every op")
 ASSUMPTIONS = ["priorities are Python ints fixed at registration", "most systems use the default always-on window; one in three cases contains systems with a later start or a frequency of 2 (they then run only when due, in the same relative order)",
